@@ -1,5 +1,5 @@
 """Path predicates over a function's CFG: Ok/Err exits, must-pass-through, guards."""
-from mir import callee_paths, callee_of, op_place, op_const
+from mir import callee_paths, callee_of, op_place, op_const, strip_generics
 
 
 def result_exits(fa):
@@ -197,6 +197,86 @@ def bool_table(fa, atom_of, natoms):
     return table
 
 
+def bool_states(fa, stops, marks=None, start=0, limit=30000, env0=None, atom=None):
+    """Path-sensitive run over the bool locals of a function. Known values are propagated through
+    constants, copies, `!`, `&`, `|` (one known operand suffices where it decides the result),
+    `==`/`!=`; a switch on a known local follows its edge, any other branch forks. `marks` maps a
+    block to a label that is remembered once the block was passed. Returns, for each stop block,
+    the list of (env after the block's statements, labels) over all explored paths; the run
+    does not continue past a stop block. `env0` gives initial values; `atom(stmt)` may supply the
+    value of a statement the run cannot evaluate itself (a condition assumed true or false)."""
+    marks = marks or {}
+    out = {b: [] for b in stops}
+    seen = set()
+    work = [(start, tuple(sorted((env0 or {}).items())), frozenset())]
+    while work and len(seen) < limit:
+        b, env, ms = work.pop()
+        if b in marks:
+            ms = ms | {marks[b]}
+        if (b, env, ms) in seen:
+            continue
+        seen.add((b, env, ms))
+        envd = dict(env)
+
+        def val(op):
+            k = op_const(op)
+            if k is not None:
+                return k.get("int") if k.get("ty") == "bool" else None
+            pl = op_place(op)
+            return envd.get(pl["l"]) if pl is not None and not pl["p"] else None
+        for s in fa.blocks[b]["stmts"]:
+            if "lhs" not in s:
+                continue
+            if s["lhs"]["p"]:
+                continue
+            rv = s["rv"]
+            v = atom(s) if atom is not None else None
+            if v is not None:
+                pass
+            elif rv["k"] == "use":
+                v = val(rv["op"])
+            elif rv["k"] == "unop" and rv.get("op") == "Not":
+                x = val(rv["a"])
+                v = None if x is None else 1 - x
+            elif rv["k"] == "binop" and rv.get("op") in ("BitAnd", "BitOr", "Eq", "Ne", "BitXor") and \
+                    rv.get("ty") == "bool":
+                x, y = val(rv["a"]), val(rv["b"])
+                if rv["op"] == "BitOr" and 1 in (x, y):
+                    v = 1
+                elif rv["op"] == "BitAnd" and 0 in (x, y):
+                    v = 0
+                elif x is not None and y is not None:
+                    v = {"BitAnd": x & y, "BitOr": x | y, "Eq": int(x == y), "Ne": int(x != y),
+                         "BitXor": x ^ y}[rv["op"]]
+            if v is None:
+                envd.pop(s["lhs"]["l"], None)
+            else:
+                envd[s["lhs"]["l"]] = v
+        if b in out:
+            out[b].append((dict(envd), ms))
+            continue
+        t = fa.blocks[b]["term"]
+        nenv = tuple(sorted(envd.items()))
+        if t["k"] == "switch":
+            pl = op_place(t["op"])
+            if pl is not None and not pl["p"] and pl["l"] in envd:
+                tg = t["otherwise"]
+                for vv, x in zip(t["vals"], t["targets"]):
+                    if vv == envd[pl["l"]]:
+                        tg = x
+                work.append((tg, nenv, ms))
+                continue
+        if t["k"] == "call" and isinstance(t.get("dest"), dict) and not t["dest"]["p"]:
+            envd.pop(t["dest"]["l"], None)
+            nenv = tuple(sorted(envd.items()))
+        for x in fa.succs(b):
+            if not fa.blocks[x].get("cleanup"):
+                work.append((x, nenv, ms))
+    if len(seen) >= limit:
+        return None
+    return out
+
+
 def back_slice(fa, op, terminal):
     """Backward data slice of an operand over every definition (moves, casts, references,
     aggregates, binary operations, call arguments). `terminal(block, call_term)` may return a
@@ -281,7 +361,7 @@ def reach_const(fa, start, limit=6000, env0=None, after_stmt=None, avoid=()):
     those locals (path-sensitive for flags such as `let fits = a == b && c == d; if !fits {..}`)."""
     seen = set()
     out = set()
-    work = [(start, tuple(sorted((env0 or {}).items())))]
+    work = [(start, tuple(sorted((env0 or {}).items(), key=repr)))]
     first = True
     while work:
         b, env = work.pop()
@@ -309,23 +389,33 @@ def reach_const(fa, start, limit=6000, env0=None, after_stmt=None, avoid=()):
                     pl = op_place(rv["op"])
                     if pl is not None and not pl["p"] and pl["l"] in envd:
                         v = envd[pl["l"]]
+            elif rv["k"] == "agg" and rv.get("agg") == "adt" and "vi" in rv and \
+                    strip_generics(str(rv.get("adt"))) in ("std::result::Result", "std::option::Option",
+                                                           "core::result::Result", "core::option::Option"):
+                # which variant a Result / Option value is (`Err(..)` built on this path)
+                v = ("variant", strip_generics(str(rv["adt"])).rsplit("::", 1)[-1], rv["vi"])
+            elif rv["k"] == "discr":
+                pl = rv["place"]
+                x = envd.get(pl["l"]) if not pl["p"] else None
+                if isinstance(x, tuple) and x[0] == "variant":
+                    v = x[2]
             elif rv["k"] == "unop" and rv.get("op") == "Not":
                 k = op_const(rv["a"])
                 if k is not None and "int" in k:
                     v = 1 - k["int"]
                 else:
                     pl = op_place(rv["a"])
-                    if pl is not None and not pl["p"] and pl["l"] in envd:
+                    if pl is not None and not pl["p"] and isinstance(envd.get(pl["l"]), int):
                         v = 1 - envd[pl["l"]]
             if v is None:
                 envd.pop(l, None)
             else:
                 envd[l] = v
         t = fa.blocks[b]["term"]
-        nenv = tuple(sorted(envd.items()))
+        nenv = tuple(sorted(envd.items(), key=repr))
         if t["k"] == "switch":
             pl = op_place(t["op"])
-            if pl is not None and not pl["p"] and pl["l"] in envd:
+            if pl is not None and not pl["p"] and isinstance(envd.get(pl["l"]), int):
                 val = envd[pl["l"]]
                 tg = t["otherwise"]
                 for vv, x in zip(t["vals"], t["targets"]):
@@ -335,7 +425,21 @@ def reach_const(fa, start, limit=6000, env0=None, after_stmt=None, avoid=()):
                 continue
         if t["k"] == "call" and not t["dest"]["p"]:
             envd.pop(t["dest"]["l"], None)
-            nenv = tuple(sorted(envd.items()))
+            # `?` on a value whose variant is known: Ok/Some continue (0), Err/None break (1)
+            if any("Try>::branch" in x or x.endswith("Try::branch") for x in callee_paths(t)) and t["args"]:
+                pl = op_place(t["args"][0])
+                x = envd.get(pl["l"]) if pl is not None and not pl["p"] else None
+                if isinstance(x, tuple) and x[0] == "variant":
+                    cont = (x[1] == "Result" and x[2] == 0) or (x[1] == "Option" and x[2] == 1)
+                    envd[t["dest"]["l"]] = ("variant", "ControlFlow", 0 if cont else 1)
+            # the error value `?` returns: from_residual always yields Err / None
+            if any("from_residual" in x for x in callee_paths(t)):
+                dty = t.get("dest_ty") or ""
+                if dty.startswith(("std::result::Result<", "core::result::Result<")):
+                    envd[t["dest"]["l"]] = ("variant", "Result", 1)
+                elif dty.startswith(("std::option::Option<", "core::option::Option<")):
+                    envd[t["dest"]["l"]] = ("variant", "Option", 0)
+            nenv = tuple(sorted(envd.items(), key=repr))
         for x in fa.succs(b):
             work.append((x, nenv))
     return out
